@@ -5,6 +5,7 @@ package stats
 // C09 — statistics totals equal the queries counted inside the retention
 // window.
 //
+//vx:native
 //vx:overlay internal/stats/zz_vx_c09.go
 //vx:entry vxC09Step reach=s-counted,s-not-counted,s-not-filtered,s-blocked,s-upstream,s-upstream-skipped
 //vx:entry vxC09Codec reach=c-roundtrip
